@@ -184,10 +184,11 @@ class Ext:
 
 class Opaque:
     """Unknown value; truthiness forks; `tag` says where it came from."""
-    __slots__ = ("tag",)
+    __slots__ = ("tag", "truthy")
 
-    def __init__(self, tag: str):
+    def __init__(self, tag: str, truthy: Optional[bool] = None):
         self.tag = tag
+        self.truthy = truthy
 
     def __repr__(self):
         return f"Opaque<{self.tag}>"
@@ -485,7 +486,11 @@ class Interp:
     def _materialize_free(self, cell: Cell, f: str):
         """Generic binary trees (C14/C15): every node has 0, left-only, right-only or 2 children."""
         if f in ("left", "right"):
-            i = self.choose(2, f"{f}({cell.cid})", ["absent", "present"])
+            if -(cell.updepth - 1) > self.config.get("max_downdepth", 99):
+                i = 0  # exploration bound on the depth below the argument node
+                self.bounded = True
+            else:
+                i = self.choose(2, f"{f}({cell.cid})", ["absent", "present"])
             if i == 0:
                 self._set_entry(cell, f, None)
                 return None
@@ -741,6 +746,8 @@ class Interp:
                 return False
             return self.atom(f"nonempty:{v.label}")
         if isinstance(v, Opaque):
+            if v.truthy is not None:
+                return v.truthy
             return self.atom(f"truth:{v.tag}")
         if isinstance(v, CommonFactors):
             return True
@@ -808,8 +815,11 @@ class Interp:
             return self.ident_eq(a, b)
         if isinstance(a, Ident) or isinstance(b, Ident):
             o = b if isinstance(a, Ident) else a
+            me = a if isinstance(a, Ident) else b
             if isinstance(o, str):
-                return self.atom(f"ident-is:{(a if isinstance(a, Ident) else b).name}:{o}")
+                return self.atom(f"ident-is:{me.name}:{o}")
+            if isinstance(o, Opaque):
+                return self.atom(f"eq:{me.name}:{o.tag}")
             return False
         ta, tb = self.to_term(a), self.to_term(b)
         if ta is not None and tb is not None:
